@@ -49,9 +49,35 @@ CHECKS = {
    note=TRUST + "History-independence of outputs (order_independent), label determinism under renaming of the build number and the lift of distinct_across_models to whole build sequences are checked by the correspondence run and proved only as far as Props/C18.lean states; 'a different seed gives different pointers' and the RandomState stream are empirical; Nengo Config.default and weak-reference semantics are assumptions.",
    technique="Lean 4 proof (induction over construction scripts: monotone map contents, name freshness, governing-map and shared-map invariants, build ownership) + exhaustive/random nesting-tree correspondence",
    ref="6/C18"),
+
+ "C03": dict(
+   text="Lean 4 (core + the C11 lattice): over a model of Python's operator dispatch (reflected operators, __array_ufunc__ = None), TypeCheckedBinaryOp, infer_types with its mutable type assignments, _ensure_algebra_match / _ensure_length_match / _get_algebra, as_ast_node / as_sink and ModuleInput.__rrshift__, for every vocabulary universe, operand and history: type inference accepts exactly when the operand types have an upper bound among themselves and otherwise raises before assigning anything; different vocabularies (even of equal dimensionality) and different dimensionalities are never bounded; pointer × pointer operations are accepted iff types are bounded, lengths are equal and two vocabulary-less pointers share the algebra, and the result carries the bound's vocabulary and the operand's algebra; pointers of different length are rejected by every operation; no operation of any operand kind, accepted or rejected, ever changes a SemanticPointer, hence acceptance is history-free for pointers; bare arrays are rejected by + − * >> on either side; reinterpret/translate give the requested vocabulary. Tied to the code by the full operator × operand-kind × vocabulary-relation matrix (incl. arrays on both sides, NumPy scalars, module outputs, symbols) and all histories in which a vocabulary-less pointer/symbol meets ≤ 3 vocabularies (≈8.5k programs quick, ≈35k thorough), every accepted expression completed with matching and mismatching >> sink.",
+   note=TRUST + "Exact acceptance iff and result vocabulary/algebra are proved for pointer × pointer; other kind pairs by soundness lemmas plus the exhaustive correspondence; connect-stage and NumPy-internal errors are compared as classes; routed mode (inside action-selection blocks) and '/' are not modelled; PointerSymbols are bound by inference by design (the history clause speaks of Semantic Pointers).",
+   technique="Lean 4 proof (world/history semantics, induction over histories, reuse of the C11 coercion theorems) + exhaustive operator-matrix and history correspondence",
+   ref="6/C03"),
+ "C17": dict(
+   text="Lean 4 over the shared algebra model, for every linearly ordered commutative ring, every HRR dimensionality and every VTB/TVTB sub-dimensionality: HrrAlgebra.sign is determined by the signs of the DC and (even d) Nyquist coefficients, which are ring homomorphisms of the convolution ring (dc_bind, nyq_bind), so the sign of a binding is the component-wise product of the operands' coefficient signs; the four classes are exclusive and exhaustive; for definite non-zero signs abs has positive sign, is idempotent and bind(sign vector, abs v) = v; VTB/TVTB sign is the classification of the vector's own m×m matrix (block reduction of the d×d binding matrix) by symmetry and definiteness with exactly one class per vector, abs v = ±v / 0 with the same three laws. Totality of the HRR sign is proved outside the class DC = 0 ∧ Nyquist ≠ 0 (sign_total_partial) and DISPROVED on it (sign_total_fails, witness [1,−1], every even d): that is the recorded known finding C17-hrr-sign-dc0. Tied to the code by vectors generated by class with exactly representable coefficients (d = 1..64 odd/even; matrices GGᵀ+cI, negatives, indefinite, singular, antisymmetric, zero, non-symmetric for m = 1..7), sign predicates, to_vector, abs, SemanticPointer.sign()/abs(), product and reconstruction laws.",
+   note=TRUST + "rfft's two real coefficients are replaced by the exact sums Σv and Σ(−1)^i v (checked exact on every generated input); eigvalsh/allclose are replaced by the quadratic-form definitions, the driver runs a certificate checker proved sound instead of the noncomputable classification (no completeness theorem); near-singular matrices and rounded-zero coefficients are float territory and are not generated.",
+   technique="Lean 4 proof (characters of the convolution ring, sign multiplicativity, block-matrix reduction, Gram-certificate soundness) + by-class exact correspondence; one known finding with _partial/_fails theorems",
+   ref="6/C17"),
+ "C07": dict(
+   text="Lean 4 (100 theorems) over a model of SemanticPointer with a law-free algebra record and an environment of algebra objects by identity: every operator and method (+, binary/unary −, * with pointers in either order and with every numeric kind, / , ~, linv/rinv, **, dot/@, compare, distance, mse, normalized, unitary, abs, copy, length, len, binding matrix) equals the operation of the pointer's own algebra object or the elementary vector formula applied in operand order — including the reflected variants (rsub_eq, rmul_eq), division by zero for every kind of zero, the zero-vector cases of compare and normalized, result vocabulary and algebra, independence from any other (default) algebra (uses_own_algebra), and immutability of constructed vectors under arbitrary action sequences on a heap-with-write-flag model — for all vectors, dimensions, commutative rings / ordered fields and ALL algebra implementations. Tied to the code by ≈2.4·10⁴ (quick) / 3.6·10⁵ (thorough) executions over all operators × three algebras × operand orders × scalar kinds × pointer kinds, judged by fractions formulas, direct algebra calls, a recording proxy algebra, a custom non-commutative non-additive algebra, operand snapshots and write attempts.",
+   note=TRUST + "np.linalg.norm is abstract (nrm ≥ 0, nrm² = Σv²; the driver uses a 2⁻⁸⁰ rational approximation); make_unitary, abs and fractional powers are uninterpreted (delegation proved, values tied by the direct-call and proxy oracles); HRR's FFT path tied numerically; names assumed shorter than MAX_NAME.",
+   technique="Lean 4 proof (path = formula per operator, environment-independence, heap invariant by induction) + exhaustive differential correspondence with proxy-algebra oracles",
+   ref="6/C07"),
+ "C10": dict(
+   text="Lean 4 (76 theorems) over a model of Vocabulary.parse / parse_n / populate / create_pointer that is generic in the algebra: the value of every denoting expression equals applying the written operators to the vocabulary's entries (structural induction over the denotation relation), a bare number is n times the vocabulary's own identity, special names belong to the vocabulary's algebra and cannot be shadowed, every successful parse is a pointer of this vocabulary, unknown names in a strict vocabulary and non-pointer results raise the parse error with the vocabulary unchanged, populate processes items left to right (';' then first '=' then first '.', stripped), 'Name = expr' stores exactly the parsed value, a failing item keeps the prefix, and create_pointer returns the FIRST candidate below the bound among the allowed attempts, else the first of the least similar ones with a warning issued iff none qualified (all streams, attempt limits, bounds, transforms, empty vocabulary, 0 attempts, exhausted generator). Tied to the code over three algebras × d ∈ {4,9} with exact ℚ / ℚ(√m) evaluation, strict and non-strict vocabularies and scripted pointer generators.",
+   note=TRUST + "CPython's parser is trusted (the model receives ast.parse(text) converted node by node); operators on bare NumPy arrays / inf answer 'unmodelled' and are counted, not compared (~1 %); normalized() covered only for rational norms and unitary() through prefix checks.",
+   technique="Lean 4 proof (abstract algebra record, Python dispatch as a total function with explicit exception classes, denotational relation + structural induction, loop invariant for the attempt loop) + exact differential correspondence",
+   ref="6/C10"),
+ "C13": dict(
+   text="Lean 4 (48 theorems) for any commutative ring, any dimensionalities, any well-formed vocabularies, any key list, every populate mode and an arbitrary iteration order of the Python sets involved: T i j = Σ over requested ∩ source ∩ target(-after) of to_k i · from_k j (under the stated pairing hypothesis, shown necessary by pairing_needed), orthonormal source entries map exactly, any residual minimiser maps linearly independent entries exactly, only requested keys matter, populate False/None/True behave as documented (silent / NengoWarning exactly when a requested source key is missing / created from the target's own generator), the source vocabulary and its generator are never changed, translate = T·v with the target vocabulary and algebra, reinterpret keeps the vector and follows the new vocabulary's algebra or keeps it when cleared, subsets hold the same vectors, keys and algebra independently of the original. Tied to the code exhaustively over all key subsets (≤ 5 keys, incl. keys the source lacks) × populate modes × solver on purpose-built exact vocabulary pairs in all algebras, on SemanticPointer, PointerSymbol and module outputs.",
+   note=TRUST + "NumPy dot/lstsq trusted (solver abstract; dependent rows are oracle-only); CPython's set iteration order pairing is an observed assumption (17,605 call pairs, 0 differences, varied PYTHONHASHSEED); vocabularies are values in the model (independence of real objects is checked by the harness); symbol evaluation is C10's, network semantics of Transformed is C01's.",
+   technique="Lean 4 proof (normal-form lemma for transform_to, Finset sums and linear algebra) + exhaustive exact-rational correspondence",
+   ref="6/C13"),
 }
 
-ENABLED = {"C02", "C11"}
+ENABLED = {"C02", "C09", "C11", "C14", "C16", "C20"}
 
 NOT_YET = "check not built yet in this round (model and correspondence pending); see DESIGN.md section 6"
 
